@@ -122,65 +122,66 @@ func runC18(c *kit.Ctx) {
 		fBL := c.Field("internal/addrlist", "AddrList", "blocklist")
 		isExternal := c.FuncObj("internal/externalip", "IsExternal")
 		blocked := c.FuncObj("internal/blocklist", "(*Blocklist).Blocked")
-		portNZ := c.AtomFlow(pushFn, func(a kit.Atom) bool {
+		mk := func(gen func(a kit.Atom) bool) *kit.Spec {
+			return &kit.Spec{P: c.Prog, Deep: kit.DefaultDeep, Edge: gen}
+		}
+		portNZ := mk(func(a kit.Atom) bool {
 			z, ok := a.R.IntConst()
 			return ok && z == 0 && a.Op == token.NEQ && a.L.IsField(fPort)
-		}, nil)
-		notSelf := c.AtomFlow(pushFn, func(a kit.Atom) bool {
+		})
+		notSelf := mk(func(a kit.Atom) bool {
 			if a.IsFalse(func(e *kit.Expr) bool { return e.Kind == "call" && e.Name == "IsLoopback" }) {
 				return true
 			}
 			return a.Op == token.NEQ && ((a.L.IsField(fPort) && a.R.IsField(fListen)) || (a.R.IsField(fPort) && a.L.IsField(fListen)))
-		}, nil)
-		notClient := c.AtomFlow(pushFn, func(a kit.Atom) bool {
+		})
+		notClient := mk(func(a kit.Atom) bool {
 			return a.IsFalse(func(e *kit.Expr) bool {
 				return e.Kind == "call" && e.Name == "Equal" && e.Mentions(func(x *kit.Expr) bool { return x.IsField(fClientIP) })
 			})
-		}, nil)
-		notExt := c.AtomFlow(pushFn, func(a kit.Atom) bool {
+		})
+		notExt := mk(func(a kit.Atom) bool {
 			return a.IsFalse(func(e *kit.Expr) bool { return e.IsCallTo(isExternal) })
-		}, nil)
-		notBlocked := c.AtomFlow(pushFn, func(a kit.Atom) bool {
+		})
+		notBlocked := mk(func(a kit.Atom) bool {
 			if a.IsNilCmp(true, func(e *kit.Expr) bool { return e.IsField(fBL) }) {
 				return true
 			}
 			return a.IsFalse(func(e *kit.Expr) bool { return e.IsCallTo(blocked) && e.Args[0].IsField(fBL) })
-		}, nil)
-		ni := 0
-		kit.Instrs(pushFn, func(ins ssa.Instruction) {
-			cc := kit.CallOf(ins)
-			if cc == nil || cc.StaticCallee() == nil || cc.StaticCallee().Name() != "ReplaceOrInsert" {
-				return
-			}
-			ni++
-			key := k.key(pushFn, "insert address")
-			switch {
-			case !portNZ.Before(ins):
-				c.Bad("R18.1", key, posOf(ins), "address inserted without Port != 0")
-			case !notSelf.Before(ins):
-				c.Bad("R18.1", key, posOf(ins), "address inserted without the own-listening-address test (loopback && own port)")
-			case !notClient.Before(ins):
-				c.Bad("R18.1", key, posOf(ins), "address inserted without the !clientIP.Equal test")
-			case !notExt.Before(ins):
-				c.Bad("R18.1", key, posOf(ins), "address inserted without the !externalip.IsExternal test")
-			case !notBlocked.Before(ins):
-				c.Bad("R18.1", key, posOf(ins), "address inserted without blocklist == nil || !Blocked(ip): a blocked address could be dialled")
-			default:
-				c.OK("R18.1", key, posOf(ins), "insert under Port!=0, not own address, !clientIP, !external, not blocked")
-			}
 		})
-		c.Floor("R18.1", "address inserts in Push", ni, 1)
-		// nothing else inserts into the priority tree
+		_ = pushFn
+		// every insert into the priority tree, wherever it sits in the package: the five filters
+		// hold in the inserting function or (for a helper) before every call of it; a filter may
+		// also sit in a bool-returning predicate (predicate summaries of the kit)
+		ni := 0
 		for _, fn := range c.ModuleFunctions() {
-			if !inPkg(fn, c, "internal/addrlist") || fn == pushFn {
+			if !inPkg(fn, c, "internal/addrlist") {
 				continue
 			}
 			kit.Instrs(fn, func(ins ssa.Instruction) {
-				if cc := kit.CallOf(ins); cc != nil && cc.StaticCallee() != nil && cc.StaticCallee().Name() == "ReplaceOrInsert" {
-					c.Bad("R18.1", k.key(fn, "insert address"), posOf(ins), "address inserted outside AddrList.Push")
+				cc := kit.CallOf(ins)
+				if cc == nil || cc.StaticCallee() == nil || cc.StaticCallee().Name() != "ReplaceOrInsert" {
+					return
+				}
+				ni++
+				key := k.key(fn, "insert address")
+				switch {
+				case !portNZ.Holds(ins, 2):
+					c.Bad("R18.1", key, posOf(ins), "address inserted without Port != 0")
+				case !notSelf.Holds(ins, 2):
+					c.Bad("R18.1", key, posOf(ins), "address inserted without the own-listening-address test (loopback && own port)")
+				case !notClient.Holds(ins, 2):
+					c.Bad("R18.1", key, posOf(ins), "address inserted without the !clientIP.Equal test")
+				case !notExt.Holds(ins, 2):
+					c.Bad("R18.1", key, posOf(ins), "address inserted without the !externalip.IsExternal test")
+				case !notBlocked.Holds(ins, 2):
+					c.Bad("R18.1", key, posOf(ins), "address inserted without blocklist == nil || !Blocked(ip): a blocked address could be dialled")
+				default:
+					c.OK("R18.1", key, posOf(ins), "insert under Port!=0, not own address, !clientIP, !external, not blocked")
 				}
 			})
 		}
+		c.Floor("R18.1", "address inserts in package addrlist", ni, 1)
 	}
 
 	// ---- R18.2 accept road
